@@ -22,10 +22,12 @@
 //! The compiled path must be indistinguishable from `evaluate_expr` through
 //! every consumer:
 //! - arithmetic and comparisons are null-strict, matching the interpreter's
-//!   arrow kernels (`boolean::and`, not Kleene). Because every operator in
-//!   the subset is null-strict, a result row is valid iff EVERY referenced
-//!   column is valid at that row — so validity is computed once as the AND
-//!   of leaf validities, exactly what kernel-by-kernel propagation yields.
+//!   arrow kernels: a result row is valid iff EVERY referenced column is
+//!   valid at that row — so validity is computed once as the AND of leaf
+//!   validities, exactly what kernel-by-kernel propagation yields. AND/OR
+//!   are Kleene in the interpreter (`and_kleene`/`or_kleene`), which that
+//!   single validity cannot express, so validity is tracked per register
+//!   (`valid_chunk`) whenever a referenced column carries nulls.
 //! - f64 division by zero produces ±inf/NaN in both paths (never null).
 //! - numeric comparisons require identical arrow types on both sides;
 //!   anything the interpreter would coerce falls back to the interpreter.
@@ -475,11 +477,19 @@ impl CompiledPredicate {
         }
 
         let any_nulls = arrays.iter().any(|a| a.as_any_array().null_count() > 0);
-
         let mut f_slabs = vec![[0f64; CHUNK]; self.f_regs.max(1)];
         let mut m_slabs = vec![[0u8; CHUNK]; self.m_regs.max(1)];
         let mut out_builder = arrow::array::builder::BooleanBufferBuilder::new(n);
         let mut valid_bits: Option<Vec<bool>> = any_nulls.then(|| Vec::with_capacity(n));
+        // Validity slabs, one per register, only when some column has nulls.
+        let (mut fv_slabs, mut mv_slabs) = if any_nulls {
+            (
+                vec![[1u8; CHUNK]; self.f_regs.max(1)],
+                vec![[1u8; CHUNK]; self.m_regs.max(1)],
+            )
+        } else {
+            (Vec::new(), Vec::new())
+        };
 
         let mut start = 0usize;
         while start < n {
@@ -508,11 +518,14 @@ impl CompiledPredicate {
             }
             out_builder.append_packed_range(0..len, &packed);
             if let Some(vb) = valid_bits.as_mut() {
-                // Null-strict subset: a row is valid iff every referenced
-                // column is valid — identical to kernel-chain propagation.
+                // Leaves are null-strict (valid iff every column they read
+                // is valid); AND/OR are Kleene, exactly like the
+                // interpreter's `and_kleene`/`or_kleene`: FALSE AND NULL is
+                // FALSE, TRUE OR NULL is TRUE.
+                self.valid_chunk(&arrays, start, len, &m_slabs, &mut fv_slabs, &mut mv_slabs);
+                let v = &mv_slabs[self.out as usize];
                 for i in 0..len {
-                    let row = start + i;
-                    vb.push(arrays.iter().all(|a| a.as_any_array().is_valid(row)));
+                    vb.push(v[i] != 0);
                 }
             }
             start += len;
@@ -526,6 +539,85 @@ impl CompiledPredicate {
                 BooleanArray::new(values, Some(nulls))
             }
         })
+    }
+
+    /// Validity (1 = non-null) of every register for one chunk, given the
+    /// already computed mask VALUES in `m`. Mirrors the interpreter: arithmetic
+    /// and comparisons are null-strict, AND/OR are Kleene, NOT keeps validity.
+    fn valid_chunk(
+        &self,
+        arrays: &[ColArr],
+        start: usize,
+        len: usize,
+        m: &[[u8; CHUNK]],
+        fv: &mut [[u8; CHUNK]],
+        mv: &mut [[u8; CHUNK]],
+    ) {
+        let col_valid = |c: usize, out: &mut [u8; CHUNK]| {
+            let a = arrays[c].as_any_array();
+            if a.null_count() == 0 {
+                out[..len].fill(1);
+            } else {
+                for i in 0..len {
+                    out[i] = a.is_valid(start + i) as u8;
+                }
+            }
+        };
+        let src_valid = |s: &Src, fv: &[[u8; CHUNK]], out: &mut [u8; CHUNK]| match s {
+            Src::Col(c) => col_valid(*c, out),
+            Src::Reg(r) => out[..len].copy_from_slice(&fv[*r as usize][..len]),
+            Src::LitF64(_) | Src::LitI64(_) | Src::LitI32(_) => out[..len].fill(1),
+        };
+        for ins in &self.prog {
+            match ins {
+                Instr::LoadF64 { col, dst } => col_valid(*col, &mut fv[*dst as usize]),
+                Instr::LitF64 { dst, .. } => fv[*dst as usize][..len].fill(1),
+                Instr::Arith { a, b, dst, .. } => {
+                    let (ops, dsts) = fv.split_at_mut(*dst as usize);
+                    let d = &mut dsts[0];
+                    let (x, y) = (&ops[*a as usize], &ops[*b as usize]);
+                    for i in 0..len {
+                        d[i] = x[i] & y[i];
+                    }
+                }
+                Instr::CmpF64 { a, b, dst, .. }
+                | Instr::CmpI64 { a, b, dst, .. }
+                | Instr::CmpI32 { a, b, dst, .. } => {
+                    let mut va = [1u8; CHUNK];
+                    let mut vb = [1u8; CHUNK];
+                    src_valid(a, fv, &mut va);
+                    src_valid(b, fv, &mut vb);
+                    let d = &mut mv[*dst as usize];
+                    for i in 0..len {
+                        d[i] = va[i] & vb[i];
+                    }
+                }
+                Instr::And { a, b, dst } => {
+                    let (ops, dsts) = mv.split_at_mut(*dst as usize);
+                    let d = &mut dsts[0];
+                    let (va, vb) = (&ops[*a as usize], &ops[*b as usize]);
+                    let (x, y) = (&m[*a as usize], &m[*b as usize]);
+                    for i in 0..len {
+                        // valid when both are, or when a valid side is FALSE
+                        d[i] = (va[i] & vb[i]) | (va[i] & (1 - x[i])) | (vb[i] & (1 - y[i]));
+                    }
+                }
+                Instr::Or { a, b, dst } => {
+                    let (ops, dsts) = mv.split_at_mut(*dst as usize);
+                    let d = &mut dsts[0];
+                    let (va, vb) = (&ops[*a as usize], &ops[*b as usize]);
+                    let (x, y) = (&m[*a as usize], &m[*b as usize]);
+                    for i in 0..len {
+                        // valid when both are, or when a valid side is TRUE
+                        d[i] = (va[i] & vb[i]) | (va[i] & x[i]) | (vb[i] & y[i]);
+                    }
+                }
+                Instr::Not { a, dst } => {
+                    let (ops, dsts) = mv.split_at_mut(*dst as usize);
+                    dsts[0][..len].copy_from_slice(&ops[*a as usize][..len]);
+                }
+            }
+        }
     }
 
     fn eval_chunk(
